@@ -182,8 +182,36 @@ Proof. unfold resolvable. rewrite has_emitted. intros ->. vm_compute. reflexivit
 Lemma emitted_refuted : known_partialordb [DPartialOrd] = true /\ closed (emitted [DPartialOrd]) = false.
 Proof. split; vm_compute; reflexivity. Qed.
 
-(* the regenerated table IS the hand model, row by row *)
-Lemma table_is_model :
-  gen_table_model = map (fun req => map dcode (emitted req)) (powerset decorators) /\
-  gen_table_class = map (fun req => map dcode (emitted req)) (powerset decorators).
+(* the regenerated table IS the hand model, row by row, as sets of derive names (the order of the
+   names inside #[derive(..)] has no meaning in Rust, so a reordering edit keeps this true) *)
+Definition all_derives : list derive := decorators ++ [DFieldInfo; DIncanClass].
+Definition same_set (a b : list derive) : bool :=
+  forallb (fun d => Bool.eqb (has a d) (has b d)) all_derives.
+Definition rows_match (tbl : list (list Z)) : bool :=
+  Nat.eqb (length tbl) (length (powerset decorators)) &&
+  forallb (fun p => match row_derives (snd p) with
+                    | Some e => same_set e (emitted (fst p))
+                    | None => false
+                    end) (combine (powerset decorators) tbl).
+
+Lemma same_set_spec a b : same_set a b = true -> forall d, has a d = has b d.
+Proof.
+  unfold same_set. rewrite forallb_forall. intros H d. apply Bool.eqb_prop. apply H.
+  destruct d; cbn; tauto.
+Qed.
+
+Lemma table_is_model : rows_match gen_table_model = true /\ rows_match gen_table_class = true.
 Proof. split; vm_compute; reflexivity. Qed.
+
+Lemma rows_match_rows tbl : rows_match tbl = true ->
+  forall f : derive -> bool, let req := filter f decorators in
+  exists row e, In (req, row) (combine (powerset decorators) tbl) /\ row_derives row = Some e /\
+    forall d, has e d = has (emitted req) d.
+Proof.
+  intros H f req. unfold rows_match in H. apply andb_prop in H as [Hlen Hall].
+  apply Nat.eqb_eq in Hlen.
+  destruct (in_combine_ex req _ tbl (filter_in_powerset f decorators) Hlen) as [row Hrow].
+  rewrite forallb_forall in Hall. specialize (Hall _ Hrow). cbn [fst snd] in Hall.
+  destruct (row_derives row) as [e|] eqn:E; [|discriminate].
+  exists row, e. split; [exact Hrow|]. split; [exact E|]. now apply same_set_spec.
+Qed.
